@@ -20,7 +20,9 @@ def specs(tier):
 
     tpl = [*t.terminal_templates(), *t.combinator_templates(3 if tier == "quick" else 5), *t.loop_templates(), *t.identifier_templates(),
            *[r for r in t.rule_templates() if r.modifier in (0, 2) and not r.trivia_name], *t.entry_templates()]
-    return [*g.core_terminals(), *g.structure(), *g.backtracking(), *ops.bounded_repeat_specs(), *rules, *g.entry(), *tpl]
+    # the optimized execution modes run core operators through the optimizer-only nodes
+    opt_nodes = [ops.SkipUntilSpec(), ops.RegexNodeSpec("RegexExpression"), ops.RegexNodeSpec("OptimizedChoice"), *t.skipuntil_templates(), *t.regex_node_templates()]
+    return [*g.core_terminals(), *g.structure(), *g.backtracking(), *ops.bounded_repeat_specs(), *rules, *g.entry(), *tpl, *opt_nodes]
 
 from .groups import concretise_ops
 concretise = concretise_ops(PROPERTY)
